@@ -317,6 +317,67 @@ func main() {
 		m := kafka.Message{Value: make([]byte, sz)}
 		emit(fmt.Sprintf("lbconc %d %d %d", n, g*per, sz), concurrent(g, per, n, func() int { return lb.Balance(m, parts...) }))
 	}
+
+	// key-hashing balancers shared by concurrent callers: every answer equals the sequential one (pure function of key
+	// and count).  Long keys widen the Reset/Write/Sum32 window of a hasher that is not exclusively owned.
+	nhc := 4
+	if thorough {
+		nhc = 40
+	}
+	for i := 0; i < nhc; i++ {
+		n := 3 + r.Intn(60)
+		g := 8 + r.Intn(25)
+		per := 3000 + r.Intn(3000)
+		ks := make([][]byte, g)
+		for j := range ks {
+			ks[j] = gen.Bytes(r, 1+r.Intn(40))
+			if j%3 == 0 {
+				ks[j] = gen.Bytes(r, 200+r.Intn(1800))
+			}
+		}
+		for _, v := range []struct {
+			name string
+			b    kafka.Balancer
+		}{
+			{"hash-pool", &kafka.Hash{}}, {"refhash-pool", &kafka.ReferenceHash{}},
+			{"hash-custom", &kafka.Hash{Hasher: fnv.New32a()}}, {"refhash-custom", &kafka.ReferenceHash{Hasher: fnv.New32a()}},
+			{"crc32", kafka.CRC32Balancer{Consistent: true}}, {"murmur2", kafka.Murmur2Balancer{Consistent: true}},
+		} {
+			emit(fmt.Sprintf("hashconc %s %d %d %d", v.name, n, g, per), hashconc(v.b, ks, n, per))
+		}
+	}
+	if os.Getenv("C13_CONC_ONLY") != "" {
+		return
+	}
+
+	// what the Writer offers its balancer, through a real Writer: metadata answers with / without the topic, with a
+	// topic-level error code, with n partitions
+	codes := []int{0, 0, 0, 3, 5, 6, 9, 17, 29}
+	nw := 60
+	if thorough {
+		nw = 600
+	}
+	bals := []string{"rr", "lb", "hash", "refhash", "crc32", "murmur2", "default"}
+	for i := 0; i < nw; i++ {
+		bal := bals[i%len(bals)]
+		code := codes[r.Intn(len(codes))]
+		found := r.Intn(8) != 0
+		n := 1 + r.Intn(9)
+		if code != 0 && r.Intn(3) != 0 {
+			n = 0 // a topic entry with an error normally lists no partition
+		}
+		k := gen.Bytes(r, 1+r.Intn(24))
+		decoy := r.Intn(3) == 0
+		d := 0
+		if decoy {
+			d = 1
+		}
+		f := 0
+		if found {
+			f = 1
+		}
+		emit(fmt.Sprintf("woffer %s %s %d %d %d %d", bal, gen.Hex(k), f, code, n, d), woffer(bal, k, found, code, n, decoy))
+	}
 }
 
 // stubHasher is a hash.Hash32 whose Sum32 is fixed.
